@@ -756,6 +756,12 @@ def run(ctx):
             ctx.count("exec.deep", f"max_ops={dn.max_ops} limits={dn.is_within_resource_limits} engine={r['engine_ok']}")
     ctx.stream("exec", exec_lines, nontrivial=lambda line, out: True)
     ctx.stream("sat", sat_lines, nontrivial=lambda line, out: out.startswith("ok"))
+    # the bounds theorem (satisfy_within_bounds_partial) assumes the chosen candidate is canonical: how often is it?
+    flags = ctx.model(EXE, ["satflags" + ln[3:] for ln in sat_lines]) or []
+    for ln, out in zip(sat_lines, flags):
+        if not out.startswith("err"):
+            sane = from_tokens(ln.split(" ")[1], ln.split(" ")[7:]).is_sane
+            ctx.count("sat.canonical", out.split(" ")[0] + ("/sane" if sane else "/insane"))
     # BIP68: an older() is met from transaction version 2 only.  Every P2WSH expression with an older() is finalized
     # (and satisfied) in a VERSION-1 transaction whose nSequence would meet it, every key and preimage available:
     # what comes back must be a refusal or a witness the engine accepts.
